@@ -146,6 +146,20 @@ class RNG(object):
         """The process-wide generator is in some state called ``label``."""
         self.global_gen = Gen(self, 'GLOBAL:%s' % label)
 
+    def assume_truncation(self, B):
+        """documented contract of truncnorm.rvs: every draw lies in [a, b]"""
+        import math
+        for name in self.order:
+            d = self.draws[name]
+            if d.kind != 'tz' or getattr(d, 'assumed', False):
+                continue
+            a, b = d.info
+            z = Sym.var(name)
+            if not (isinstance(a, float) and math.isinf(a)):
+                B.assume(z >= a)
+            if not (isinstance(b, float) and math.isinf(b)):
+                B.assume(z <= b)
+
     def mark(self):
         return len(self.order)
 
@@ -200,7 +214,9 @@ class TruncNorm(object):
         else:
             shape = tuple(int(s) for s in size)
         z = _np.empty(shape, dtype=object)
+        a_b = _np.broadcast_to(_np.asarray(a, dtype=object), shape)
+        b_b = _np.broadcast_to(_np.asarray(b, dtype=object), shape)
         for idx in _np.ndindex(*shape):
-            z[idx] = g._fresh('tz', info=(a, b))
+            z[idx] = g._fresh('tz', info=(a_b[idx], b_b[idx]))
         self.calls.append(dict(a=a, b=b, loc=loc, scale=scale, z=z))
         return loc_a + scale_a * z
